@@ -1,5 +1,7 @@
 import Sheens.Driver.Common
 import Sheens.Tools
+import Sheens.GoRun
+import Sheens.Gen.GoAst
 
 /-! Driver op `tools`: analysis sets/counts and rendered node/edge structure. -/
 
@@ -46,6 +48,18 @@ def faithful (s : TSpec) (j : Json) : Bool :=
         | _ => []
       got == (branchesOf nd).map (·.target))
 
+/-- the translated `tools.Analyze` (regenerated from tools/analysis.go) on the same structural view -/
+def trAnalysis (s : TSpec) : Json :=
+  let nodes := s.map (fun (name, nd) =>
+    (name, nd.hasAction, nd.actionInterp, nd.branches.map (fun bl => bl.map (fun b => (b.target, b.hasGuard, b.guardInterp)))))
+  match Go.runAnalyze 1000000 Gen.GoAst.toolsProg nodes with
+  | .error e => Json.mkObj [("error", e)]
+  | .ok a =>
+    Json.mkObj [("nodeCount", a.nodeCount), ("branches", a.branches), ("actions", a.actions), ("guards", a.guards),
+                ("terminal", jstrs (sortS a.terminal)), ("orphans", jstrs (sortS a.orphans)),
+                ("emptyTargets", jstrs (sortS a.emptyTargets)), ("missing", jstrs (sortS a.missing)),
+                ("targetVars", jstrs (sortS a.targetVars)), ("interpreters", jstrs (sortS a.interpreters))]
+
 def handleTools (j : Json) : Json :=
   let s : TSpec := match getObj? j "tspec" with
     | some (.obj m) => m.toList.map (fun (k, v) => (k, tnodeOfJson v))
@@ -53,6 +67,7 @@ def handleTools (j : Json) : Json :=
   let go := (getObj? j "go").getD .null
   let goPanic := (getObj? go "panic").isSome
   let a := analysisJson (analyze s)
+  let ta := trAnalysis s
   let r := renderingJson (render s)
   let ga := (getObj? go "analysis").getD .null
   let gd := (getObj? go "dot").getD .null
@@ -69,7 +84,9 @@ def handleTools (j : Json) : Json :=
     (if s.any (fun p => p.2.actionInterp.isSome) then ["sourceAction"] else []) ++
     (if (analyze s).guards > 0 then ["guards"] else []) ++
     (if s.any (fun p => match p.2.branches with | some [] => true | _ => false) then ["emptyBranchList"] else [])
-  Json.mkObj [("corr", corr), ("prop", boolsJson props), ("model", Json.mkObj [("analysis", a), ("render", r)]),
+  Json.mkObj [("corr", corr), ("tr", ta.compress == a.compress),
+              ("trDiff", if ta.compress == a.compress then Json.null else Json.mkObj [("translated", ta), ("model", a)]),
+              ("prop", boolsJson props), ("model", Json.mkObj [("analysis", a), ("render", r)]),
               ("feat", jstrs feats), ("nontrivial", decide (s.length > 1)),
               ("key", ((getObj? j "tspec").getD .null).compress)]
 
